@@ -179,11 +179,21 @@ func runOne(bin string, i, k, n, procs int) Outcome {
 	ctx, cancel := context.WithTimeout(context.Background(), 10*time.Second)
 	defer cancel()
 	cmd := exec.CommandContext(ctx, bin, fmt.Sprint(i))
-	var buf bytes.Buffer
-	cmd.Stderr = &buf
-	cmd.Stdout = &buf
+	// The output goes to a file, not to a pipe: the runtime's print writes a
+	// long string with one write call and does not retry a short write, which
+	// a pipe gives when the write is interrupted by a preemption signal.
+	outf, ferr := os.CreateTemp(filepath.Dir(bin), "out-*")
+	if ferr != nil {
+		return Outcome{Built: true, Exit: -1}
+	}
+	defer os.Remove(outf.Name())
+	defer outf.Close()
+	cmd.Stderr = outf
+	cmd.Stdout = outf
 	cmd.Env = append(os.Environ(), "GOTRACEBACK=single", fmt.Sprintf("GOMAXPROCS=%d", procs))
 	err := cmd.Run()
+	data, _ := os.ReadFile(outf.Name())
+	buf := bytes.NewBuffer(data)
 	o := Outcome{Built: true}
 	if ctx.Err() != nil {
 		o.TimedOut = true
